@@ -30,7 +30,7 @@ RULE = ("kind q: histories of add (with re-adds)/remove/pop/peek/len over 2..40 
         "Distinct = distinct canonical case hash")
 ASSUMPTIONS = ["tasks are hashable with lawful __eq__/__hash__ (tokens mapped to pairwise unequal Python objects; a token is passed as the identical object or as an equal copy)",
                "priorities are finite numbers or None (no NaN, nothing float() rejects); ranks r stand for r/2 and are passed as "
-               "int / float / Fraction / bool / None / omitted argument",
+               "int / float / Fraction / bool / None / omitted argument, the extreme ranks of a case also as -inf / +inf",
                "default priority_key; the default given to pop/peek is any object (also a queued task, also the head) except the private _REMOVED sentinel",
                "CPython dict preserves insertion order; heapq and bisect.insort meet their documented contracts"]
 TRUSTED = ["Model/C10_Model.v is hand-written; tied to boltons.queueutils / boltons.listutils.BarrelList by the correspondence run",
@@ -107,10 +107,16 @@ def _pick_default(rng, ntasks, likely_head):
     return ["t", rng.randrange(ntasks)]
 
 
-def prio_obj(rank, rep):
-    """rank r stands for the number r/2; rep chooses how it is spelled."""
+def prio_obj(rank, rep, ext=None):
+    """rank r stands for the number r/2; rep chooses how it is spelled.  ext = (lowest, highest) rank of the case
+    when its extreme ranks are to be spelled -inf / +inf (still strictly monotone: one rank each)."""
     if rank is None:
         return None
+    if ext is not None and ext[0] != ext[1]:      # every occurrence of an extreme rank, or the order would break
+        if rank == ext[1]:
+            return float("inf")
+        if rank == ext[0]:
+            return float("-inf")
     even = rank % 2 == 0
     if rep == 1 and even:
         return rank // 2
@@ -187,7 +193,10 @@ def _gen_q(rng, tier):
         nadd = sum(1 for op in ops if op[0] == "add")
         dd = rng.choice([1, 1, ["t", rng.randrange(ntasks)]])      # also drain with a default that is a task
         ops += [["pop", dd, 0] for _ in range(min(nadd, ntasks) + 1)] + [["len"]]
-    return {"kind": "q", "factor": factor, "ops": ops}
+    case = {"kind": "q", "factor": factor, "ops": ops}
+    if rng.random() < 0.15:
+        case["inf"] = True             # the extreme ranks of this case are spelled -inf / +inf
+    return case
 
 
 def _gen_large(rng, tier):
@@ -295,6 +304,43 @@ def _gen_steady(rng, tier):
     return {"kind": "q", "factor": factor, "ops": ops}
 
 
+def _gen_blong(rng, tier):
+    """a BarrelList kept busy for hundreds of operations: dozens of sub-lists, many of them emptied again"""
+    factor = rng.choice([0, 1, 1, 2, 3])
+    nops = rng.randint(300, 700) if tier == "quick" else rng.randint(500, 1500)
+    ops, n, nxt = [], 0, 0
+    for j in range(nops):
+        grow = (j // 150) % 2 == 0
+        r = rng.random()
+        if r < (0.7 if grow else 0.25):
+            i = rng.choice([0, n, rng.randint(0, n), rng.randint(0, n)])
+            if rng.random() < 0.1:
+                ops.append(["insneg", rng.randint(0, n + 2), nxt % 4000])
+            else:
+                ops.append(["ins", i, nxt % 4000])
+            nxt += 1
+            n += 1
+        elif r < 0.9:
+            kind = rng.random()
+            if kind < 0.4:
+                i = rng.choice([0, 0, max(n - 1, 0), rng.randint(0, max(n - 1, 0)), n])
+                ops.append(["pop", i])
+                n -= i < n
+            elif kind < 0.7:
+                ops.append(["poplast"])
+                n -= n > 0
+            else:
+                k = rng.randint(0, n + 1)
+                ops.append(["popneg", k])
+                n -= (k == 0 and n > 0) or 1 <= k <= n
+        elif r < 0.96:
+            ops.append(rng.choice([["get", rng.randint(0, n)], ["getneg", rng.randint(0, n + 1)]]))
+        else:
+            ops.append(["len"])
+    ops += [["len"], ["list"]]
+    return {"kind": "b", "factor": factor, "ops": ops}
+
+
 def _gen_big(rng, tier, i):
     n = rng.randint(23000, 26000) if tier == "quick" else rng.randint(23000, 40000)
     if i >= 2 and i % 3 == 2:
@@ -368,9 +414,10 @@ def generate(rng, tier, n):
     nlarge = n // 400 if tier == "quick" else n // 1000      # Coq cost is cubic in the number of entries
     nchurn = n // 160 if tier == "quick" else n // 600
     nsteady = n // 330 if tier == "quick" else n // 1000
+    nblong = n // 330 if tier == "quick" else n // 1000
     # the 200 KB cases first so that their coqc jobs overlap with all the others; then a block of small cases (a
     # defect that shows on small histories is then reported and shrunk from those, cheaply); then the long ones
-    nsmall = n - nbig - nlarge - nchurn - nsteady
+    nsmall = n - nbig - nlarge - nchurn - nsteady - nblong
     for i in range(nbig):
         yield _gen_big(rng, tier, i)
     for i in range(min(300, nsmall)):
@@ -381,6 +428,8 @@ def generate(rng, tier, n):
         yield _gen_churn(rng, tier)
     for i in range(nsteady):
         yield _gen_steady(rng, tier)
+    for i in range(nblong):
+        yield _gen_blong(rng, tier)
     for i in range(nsmall - min(300, nsmall)):
         yield _gen_q(rng, tier) if rng.random() < 0.78 else _gen_b(rng, tier)
 
@@ -412,13 +461,23 @@ def _limit_steps(BarrelList, factor, upto):
 _EXC = (KeyError, IndexError)
 
 
+def _extremes(case):
+    if not case.get("inf"):
+        return None
+    rs = [op[2] for op in case["ops"] if op[0] == "add" and op[2] is not None]
+    if not rs or min(rs) >= 0 or max(rs) <= 0:
+        return None        # None / omitted priority means 0: the infinities must lie strictly outside it
+    return (min(rs), max(rs))
+
+
 def _run_queue(cls, case, inv):
     q = cls()
+    ext = _extremes(case)
     out, maxsub = [], 1
     for op in case["ops"]:
         try:
             if op[0] == "add":
-                p = prio_obj(op[2], op[3])
+                p = prio_obj(op[2], op[3], ext)
                 t = task_copy(op[1]) if len(op) > 4 and op[4] else task(op[1])
                 if op[2] is None and op[3] % 2:
                     r = q.add(t)
